@@ -21,6 +21,7 @@ NOTES = {
  "C13": "the same specification with only the configuration constant changed must accept the traces of every configuration on the same scripts (back, back+fct, back11, mp11, mp11+fct, mp11+fpa); any configuration-specific divergence is a rejection.",
  "C15": "copy construction and copy assignment as API calls of the specification (instance j becomes instance i, queue closures keep the object they were bound to); P_C15 (a call invokes no behaviour of, and changes nothing in, another machine object) model-checked with two instances; traces with up to three live instances validated; the known finding F6 (back/back11 closures stay bound to the source) is reproduced by the model, excused only in that exact pattern and re-confirmed by a probe on every run.",
  "C20": "event classes of size 8..512, alignment 1..64, trivially copyable / non-trivial / not-nothrow-movable / self-referential carry a canary, a payload-derived checksum and count constructions and destructions; the specification requires, at every API return, no lifetime error, live objects = stored occurrences (>= for the lazily erased backmp11 pool) and zero live objects after the last machine is destroyed, over histories of submit / defer / dispatch / copy / assign / stop / destroy; P_C04 (exactly once) model-checked on the same machine. Auxiliary oracle for the 'no invalid memory access' clause: the same drivers and scripts under ASan+UBSan (thorough: also valgrind).",
+ "C16": "save / load through Boost.Serialization (text and binary archives) as an API call of the specification: the loaded machine gets the active ids at every level (also of inactive submachines), the history memory, the processing flag and the entry-counter data of the states / front-ends that opt in, and empty queues; P_C16 and the ledger invariant P_C03 model-checked with a save/load at every reachable configuration; traces of nested machines under each history policy with save/load at random points and continuations on both machines validated (back, back+fct, back11).",
  "C17": "P_C17 (flag vector = exists a state of the active tree carrying the flag) on the model and flag values logged at every callback and return compared with the specification.",
  "C18": "Matches(trigger, dynamic type) with base-class chain and Kleene trigger; candidates by table position (P_C01 with this Matches); dynamic type and payload of the event seen by every behaviour compared on traces (back, mp11).",
  "C19": "AfterPhase(policy, phase) determines the ids reported inside every behaviour; ids logged by each callback compared with the specification for the four policies on back, back+fct, back11, mp11 variants.",
